@@ -116,6 +116,8 @@ def judge(c: Campaign, name: str, sc: dict[str, Any], w: World, s: Sched, pre: d
     ALT = ([2], [2, 2], [4], [2, 4])
     alt = list(ALT[(len(pre) + sum(pre.keys())) % len(ALT)])
     _assess(c, name, sc, w, s, pre, [], extra)
+    if c.tier == "thorough" and "late" not in name and (len(pre) + sum(pre.keys())) % 4:
+        return  # thorough: the second drain for every schedule of the late-branch scenarios and a quarter of the others (cost)
     tasks.reset_ledger()
     tasks.LEDGER.extend(dict(e) for e in led0)
     w2 = World(restore=blob, share_connection=True)
